@@ -40,6 +40,12 @@ func (w *World) verifyFunction(fn *ssa.Function, blk *Block, opts *Options) *Exe
 		// (any store would need ownership, and read-only locations are never owned)
 		if et := derefType(g.Type()); !isStructType(et) && !isArrayType(et) {
 			st.assume("(RO " + w.globalRef(g) + ")")
+			ch := w.cellHeap(et)
+			ex.pins = append(ex.pins, listedLoc{heap: ch, ref: w.globalRef(g)})
+			if sl, ok := et.Underlying().(*types.Slice); ok {
+				// the backing array of a package-level slice (emptyList, fullList) is read-only too
+				ex.pins = append(ex.pins, listedLoc{heap: w.elemHeap(sl.Elem()), ref: sArr(sel(ex.heapTerm(st, ch), w.globalRef(g)))})
+			}
 		}
 	}
 	for _, f := range w.funcConstOrder {
